@@ -317,6 +317,11 @@ def execute(ctx, case: dict) -> None:
 
 def gen_cases(ctx):
     rng = ctx.rng
+    if ctx.shard == 0:
+        # one pair above the default limit (2^17 networks on one side, a single network on the other)
+        for a, b in (("10.0.0.0 1.1.255.254", "10.0.0.0 0.1.255.255"), ("host 11.0.3.4", "10.0.0.0 1.1.255.254"),
+                     ("10.0.0.0 1.1.255.254", "10.0.0.0 1.255.255.255")):
+            yield {"k": "pair", "platform": "ios", "a": a, "b": b, "rel": "wide", "ka": 17, "kb": 17}
     while True:
         platform = rng.choice(["ios", "nxos"])
         roll = rng.random()
